@@ -6,6 +6,7 @@ package state
 import (
 	"errors"
 	"fmt"
+	"sort"
 	"strings"
 
 	memdb "github.com/hashicorp/go-memdb"
@@ -1231,7 +1232,16 @@ func validateProposedConfigEntryInServiceGraph(
 		svcTopNodeType              = make(map[structs.ServiceID]string)
 		exportedServicesByPartition = make(map[string]map[structs.ServiceName]struct{})
 	)
+	// Validate in a fixed order: when the change breaks more than one chain,
+	// every server that applies it must report the same error.
+	sortedChains := make([]structs.ServiceID, 0, len(checkChains))
 	for serviceID := range checkChains {
+		sortedChains = append(sortedChains, serviceID)
+	}
+	sort.Slice(sortedChains, func(i, j int) bool {
+		return sortedChains[i].String() < sortedChains[j].String()
+	})
+	for _, serviceID := range sortedChains {
 		chain, err := testCompileDiscoveryChain(tx, serviceID.ID, overrides, &serviceID.EnterpriseMeta)
 		if err != nil {
 			return err
